@@ -197,7 +197,14 @@ def run(prog, check):
                              'the supplier\'s own supply variable receives the market\'s allocation for this supplier%s' % (' times the cross rate' if cross else '')
                              if ok else 'the supplier\'s variable receives %s' % e.rhs.show()[:120], 'two suppliers: each must get its own allocation')
                     # the flow booked on the supplier is that same quantity
-                    flows = [f for f in gen if f.kind == 'cashflow' and f.role == e.role and set(g.key() for g in f.guards) == set(g.key() for g in e.guards)]
+                    def compatible(f):
+                        # same path: one guard set contains the other (a guard clause that raises inside one branch stays a
+                        # fact after the branches join) and no condition is taken both ways
+                        gf, ge = set(g.key() for g in f.guards), set(g.key() for g in e.guards)
+                        opposite = any(g1.cond.key() == g2.cond.key() and g1.pol != g2.pol for g1 in f.guards for g2 in e.guards)
+                        return not opposite and (gf <= ge or ge <= gf) and \
+                            all(g.cond.kind == 'isnone' for g in list(f.guards) + list(e.guards) if g.key() in (gf ^ ge))
+                    flows = [f for f in gen if f.kind == 'cashflow' and f.role == e.role and compatible(f)]
                     okf = False
                     for f in flows:
                         if cross:
